@@ -896,6 +896,17 @@ impl<'p, 'a> Evaluator<'a, 'p> {
                     if let Some(field_name) = self.program.str_interner.get_interned(field_name) {
                         self.want_super_field(&env, super_span, field_name, span)?;
                     } else {
+                        // A name that was never interned cannot be a field of any
+                        // object, but the missing super object must still be
+                        // reported first, as `want_super_field` does, so that the
+                        // error does not depend on which strings happen to be
+                        // interned.
+                        let (object, layer_i) = env.get_object();
+                        if layer_i == object.view().super_layers.len() {
+                            return Err(self.report_error(
+                                EvalErrorKind::SuperWithoutSuperObject { span: super_span },
+                            ));
+                        }
                         return Err(self.report_error(EvalErrorKind::UnknownObjectField {
                             span,
                             field_name: (**field_name).into(),
